@@ -599,3 +599,11 @@ Definition skeleton_conforms (fs : list func) (subs : list string) : bool :=
 
 Definition nonconforming (fs : list func) (subs : list string) : list (string * list elem * list elem) :=
   filter (fun t => negb (list_eqb (snd (fst t)) (snd t))) (tracked fs subs).
+
+(** [dealer.syncYield] keeps the call in the dealer's tables when it asks
+    [dealer.yield] for a retry (the [keep] switch of [Conc/YieldRetry.v]).
+    The translator reads this off the deferred clean-up and its guard flag;
+    [None] = the code has a shape that reading does not decide (then only the
+    harness scenario yield-to-stalled-caller-then-resume ties the model). *)
+Definition yield_retry_keeps_invocation (o : option bool) : bool :=
+  match o with Some false => false | _ => true end.
